@@ -82,12 +82,12 @@ Fixpoint deser_type_f (fuel : nat) (depth : N) : parser coltype :=
       else if id =? 48 then
         ks <- read_string ;; name <- read_string ;; n <- read_short ;;
         tick_alloc (n * SZ_UDT_FIELD) ;;;
-        fs <- repeatN (fname <- read_string ;; ft <- deser_type_f f (depth + 1) ;; ret (fname, ft)) n ;;
+        fs <- repeatS (fname <- read_string ;; ft <- deser_type_f f (depth + 1) ;; ret (fname, ft)) n ;;
         ret (TUdt false ks name fs)
       else if id =? 49 then
         n <- read_short ;;
         tick_alloc (n * SZ_COLTYPE) ;;;
-        es <- repeatN (deser_type_f f (depth + 1)) n ;;
+        es <- repeatS (deser_type_f f (depth + 1)) n ;;
         ret (TTuple es)
       else match native_of_id id with
            | Some nt => ret (TNative nt)
